@@ -12,9 +12,20 @@ Context {S : Scalar}.
 Local Notation vec := (vec S).
 Local Notation mat := (mat (S:=S)).
 
-Definition with_tentative_ns (eps2 : S) (bs cols : nat) (A : crs S) (junk : vec) (B : mat) (q0 : vec)
+(* remove_small_aggregates can delete EVERY aggregate (count = 0 although plain_aggregates passed its own
+   `if (!count) throw error::empty_level()` test): finding C03-empty-coarse-level-direct-solver-crash.  The
+   repair `if (!m) throw error::empty_level();` at the end of remove_small_aggregates turns exactly the results
+   with count = 0 into empty_level (count = 0 can only come from remove_small_aggregates: min_aggregate > 1).
+   [fx] = the tree under test contains the repaired line. *)
+Definition pointwise_aggregates_fx (fx : bool) (eps2 : S) (bs mina : nat) (A : crs S) (junk : vec) : aggregates :=
+  match pointwise_aggregates eps2 bs mina A junk with
+  | AggOk 0 id st => if fx then AggEmpty else AggOk 0 id st
+  | r => r
+  end.
+
+Definition with_tentative_ns (fx : bool) (eps2 : S) (bs cols : nat) (A : crs S) (junk : vec) (B : mat) (q0 : vec)
            (k : flags -> crs S -> crs S * crs S) : transfer S * list mat :=
-  match pointwise_aggregates eps2 bs cols A junk with
+  match pointwise_aggregates_fx fx eps2 bs cols A junk with
   | AggEmpty => (TrEmpty, [])
   | AggPrecond => (TrPrecond, [])
   | AggOk count id st =>
@@ -22,14 +33,14 @@ Definition with_tentative_ns (eps2 : S) (bs cols : nat) (A : crs S) (junk : vec)
     let pr := k st (fst PB) in (TrOk (fst pr) (snd pr), snd PB)
   end.
 
-Definition aggregation_transfer_ns (eps2 : S) (bs cols : nat) (A : crs S) (junk : vec) (B : mat) (q0 : vec) :=
-  with_tentative_ns eps2 bs cols A junk B q0 (fun _ Pt => (Pt, transpose Pt)).
+Definition aggregation_transfer_ns (fx : bool) (eps2 : S) (bs cols : nat) (A : crs S) (junk : vec) (B : mat) (q0 : vec) :=
+  with_tentative_ns fx eps2 bs cols A junk B q0 (fun _ Pt => (Pt, transpose Pt)).
 
-Definition sa_transfer_ns (eps2 omega : S) (bs cols : nat) (A : crs S) (junk : vec) (B : mat) (q0 : vec) :=
-  with_tentative_ns eps2 bs cols A junk B q0 (fun st Pt => let P := sa_smooth omega A st Pt in (P, transpose P)).
+Definition sa_transfer_ns (fx : bool) (eps2 omega : S) (bs cols : nat) (A : crs S) (junk : vec) (B : mat) (q0 : vec) :=
+  with_tentative_ns fx eps2 bs cols A junk B q0 (fun st Pt => let P := sa_smooth omega A st Pt in (P, transpose P)).
 
-Definition emin_transfer_ns (nt : nat) (eps2 : S) (bs cols : nat) (A : crs S) (junk : vec) (B : mat) (q0 : vec) :=
-  with_tentative_ns eps2 bs cols A junk B q0 (fun st Pt =>
+Definition emin_transfer_ns (fx : bool) (nt : nat) (eps2 : S) (bs cols : nat) (A : crs S) (junk : vec) (B : mat) (q0 : vec) :=
+  with_tentative_ns fx eps2 bs cols A junk B q0 (fun st Pt =>
     let fd := emin_filter A st in
     let po := emin_interpolation nt (fst fd) (snd fd) Pt in
     (fst po, emin_restriction nt (fst fd) (snd fd) Pt (snd po))).
